@@ -962,7 +962,12 @@ def readGraph(input_file,
         # networkx seems to mismanage that and to cause a TypeError
         #
         try:
-            G = networkx.nx_pydot.read_dot(input_file)
+            # pydot prints its parse diagnostics on the standard
+            # output, which may be where the formula goes.
+            from contextlib import redirect_stdout
+            diagnostics = StringIO()
+            with redirect_stdout(diagnostics):
+                G = networkx.nx_pydot.read_dot(input_file)
             try:
                 # work around for a weird parse error in pydot, which
                 # adds an additiona vertex '\\n' in the graph.
@@ -971,7 +976,7 @@ def readGraph(input_file,
                 pass
             G = graph_class.normalize(G)
         except TypeError:
-            raise ValueError('Parse Error in dot file')
+            raise ValueError('Parse Error in dot file\n' + diagnostics.getvalue())
 
     elif file_format == 'gml':
 
